@@ -8,3 +8,4 @@ import GlmVerif.Props.C08
 import GlmVerif.Props.C09
 import GlmVerif.Props.C10
 import GlmVerif.Props.C12
+import GlmVerif.Props.C19
